@@ -23,6 +23,8 @@ pub trait Cb {
     fn force_open(&self) -> BoxFuture<'_, ()>;
     fn force_closed(&self) -> BoxFuture<'_, ()>;
     fn reset(&self) -> BoxFuture<'_, ()>;
+    /// the health-check integration's entry point (opens the breaker from a spawned task)
+    fn trigger_unhealthy(&self);
 }
 
 fn map_res(r: Result<Resp, CircuitBreakerError<InnerErr>>) -> Outcome {
@@ -69,6 +71,9 @@ where
     fn reset(&self) -> BoxFuture<'_, ()> {
         Box::pin(CircuitBreaker::reset(self))
     }
+    fn trigger_unhealthy(&self) {
+        tower_resilience_core::HealthTriggerable::trigger_unhealthy(self)
+    }
 }
 
 /// A breaker that still has a plain handle while another handle of it was converted with
@@ -114,6 +119,9 @@ where
     fn reset(&self) -> BoxFuture<'_, ()> {
         Box::pin(WithFb::<C>::reset(&self.converted))
     }
+    fn trigger_unhealthy(&self) {
+        tower_resilience_core::HealthTriggerable::trigger_unhealthy(&self.converted)
+    }
 }
 
 type WithFb<C> = tower_resilience_circuitbreaker::CircuitBreakerWithFallback<GatedInner, C, Req, Resp, InnerErr>;
@@ -153,6 +161,9 @@ where
     }
     fn reset(&self) -> BoxFuture<'_, ()> {
         Box::pin(WithFb::<C>::reset(self))
+    }
+    fn trigger_unhealthy(&self) {
+        tower_resilience_core::HealthTriggerable::trigger_unhealthy(self)
     }
 }
 
